@@ -77,7 +77,7 @@ def run_task(t):
             L = it.call('@h_structid', [pi, n, pk, pe, m, po, peo, out, 512])
             r = bytes(it.load(Ptr(out.obj, i), 1) & 0xff for i in range(L)).decode('latin1')
         else:
-            tot = n * n + 2 * (3 + n + m) + n
+            tot = n * n + 2 * (3 + n + m) + 2 * n
             out = it.alloc(8 * tot, 'out')
             it.call('@h_all', [pi, n, pk, pe, m, po, peo, t.get('starts', (1 << n) - 1), out])
             r = [sgn64(it.load(Ptr(out.obj, 8 * i), 8)) for i in range(tot)]
@@ -98,12 +98,14 @@ def split_all(n, m, r):
     o['dist'] = [r[p + s * n: p + (s + 1) * n] for s in range(n)]; p += n * n
     o['parts'], o['vtot'], o['etot'] = r[p:p + 3]; o['comp'] = r[p + 3:p + 3 + n]; o['ecomp'] = r[p + 3 + n:p + 3 + n + m]; p += 3 + n + m
     o['xe'], o['xv'], o['re'] = r[p:p + 3]; o['vcount'] = r[p + 3:p + 3 + n]; o['ecount'] = r[p + 3 + n:p + 3 + n + m]; p += 3 + n + m
-    o['single'] = r[p:p + n]
+    o['single'] = r[p:p + n]; p += n
+    o['relabel'] = r[p:p + n]
     return o
 
 def judge_all(n, edges, r):
     """Compare one path's outputs with the oracle; returns the list of clauses that fail."""
     m = len(edges); o = split_all(n, m, r); orc = oracle(n, edges); bad = []
+    if o['relabel'] != orc['dist'][n - 1]: bad.append('breadth-first distance labelling of a graph that already carries a labelling (first from vertex 0, then from vertex %d): got %s, expected %s' % (n - 1, o['relabel'], orc['dist'][n - 1]))
     if any(o['dist'][s] != orc['dist'][s] for s in range(n) if o['dist'][s][0] != -9): bad.append('breadth-first distance labelling: every reachable vertex gets its shortest-path hop count (got %s, expected %s)' % (o['dist'], orc['dist']))
     okc = o['parts'] == orc['ncomp'] and o['vtot'] == n and o['etot'] == m and all(c >= 0 for c in o['comp']) and all(c >= 0 for c in o['ecomp'])
     if okc:
@@ -161,7 +163,7 @@ def plan(tier, irpath):
             structid = n <= 4 or name == 'chain of 5' or not quick
             allops = n <= 4 or (n == 5 and (not quick or name == 'ring of 4 with a tail'))
             starts = (1 << n) - 1
-            if n >= 5 or (n == 4 and quick): starts = 1 | (1 << (n - 1))
+            if n >= 5 or (n == 4 and quick): starts = 1          # the relabelling clause covers start n-1
             for fx in fixes:
                 if structid:
                     for kv in kinds_variants:
